@@ -11,6 +11,14 @@ LenW(n) == <<n \div 65536, n % 65536>>
 KeyBits(hl) == IF hl = 32 THEN 128 ELSE 256
 DescField(d) == [i \in 1..16 |-> IF i <= Len(d) THEN d[i] ELSE 0]
 
+\* Value classes of a public key (root-of-trust keys, image signing key).  The numbers of a key - coordinates X and Y - are
+\* written and hashed at the FIXED width of the curve (32 / 48 bytes) in every documented construction: root key record,
+\* root key hash (table entry, root-of-trust hash), ISK certificate.  About one key in 128 has a coordinate whose most
+\* significant byte is zero; such a key is as good as any other.  Lz(c) = <<leading byte of X is zero, of Y is zero>>.
+KeyClasses == {"full", "lzx", "lzy", "lzxy"}
+ShortClasses == KeyClasses \ {"full"}
+Lz(c) == <<c \in {"lzx", "lzxy"}, c \in {"lzy", "lzxy"}>>
+
 \* Command = tag, w1, w2, cmd [, 4 more words] [, data padded to 16] [, 64 reserved bytes]
 \* (which commands carry the extra words / the reserved tail is frozen-from-source, see harness assumptions)
 DataCmds == {2, 5, 6, 7, 9, 10}
